@@ -1,4 +1,5 @@
 """C17 - resampling a plane changes its sampling, not its optics (structural part)."""
+import ast
 from .. import nf
 from ..nf import Poly, Tup, Const, Slice, NONE, TRUE, FALSE
 from ..effects import Effects
@@ -16,7 +17,7 @@ def bound_of(atom):
 def run(chk, repo, tier):
     from .common import no_hidden_state
     no_hidden_state(chk, repo, 'C17')
-    chk.clause('C17-a', 'pixel scale is divided by the scale factor on each axis; resample uses old/new', 3)
+    chk.clause('C17-a', 'pixel scale is divided by the scale factor on each axis; resample uses old/new', 4)
     chk.clause('C17-b', 'amplitude carries the 1/scale factor, OPD does not', 2)
     chk.clause('C17-c', 'mask: order-0 interpolation in both branches, re-binarised, cast to int', 4)
     chk.clause('C17-d', 'slice cache refreshed after the mask changes', 1)
@@ -109,6 +110,26 @@ def run(chk, repo, tier):
                 is_app(sl[-1].data['value'].single_atom(), 'call:plane._plane_slice') and \
                 bound_of(sl[-1].data['value'].single_atom()).get('mask') == final
     chk.ob('C17-a', 'U-scale', f.key, 'new pixel scale = old / scale on both axes', oka and n_ps > 0, '', f.loc())
+    # "divides by exactly s": the quotient old/s is one correctly rounded operation; old * (1/s) rounds twice and differs in the
+    # last bit for many (old, s) - and pixel scales are compared with == when planes are combined
+    recip, n_div = [], 0
+
+    def is_recip(n_):
+        return isinstance(n_, ast.BinOp) and isinstance(n_.op, ast.Div) and isinstance(n_.left, ast.Constant) and \
+            n_.left.value in (1, 1.0) and isinstance(n_.right, ast.Name) and n_.right.id == 'scale'
+    recip_names = {t.id for n_ in ast.walk(f.node) if isinstance(n_, ast.Assign) and is_recip(n_.value)
+                   for t in n_.targets if isinstance(t, ast.Name)}
+    for n_ in ast.walk(f.node):
+        if isinstance(n_, ast.Assign) and any(isinstance(t, ast.Attribute) and t.attr in ('_pixelscale', 'pixelscale') for t in n_.targets):
+            n_div += 1
+            for x in ast.walk(n_.value):
+                if is_recip(x) or (isinstance(x, ast.Name) and x.id in recip_names):
+                    recip.append(f.loc(n_))
+    chk.ob('C17-a', 'N-rounding', f.key, 'the pixel scale is divided by the factor (not multiplied by a precomputed reciprocal)',
+           (not recip) if (n_div or recip) else None,
+           (f'1/scale is formed at {sorted(set(recip))[0]} and multiplied in: x*(1/s) and x/s differ in the last bit for many values '
+            '(e.g. 1/240 with s = 1.5), so the rescaled plane no longer equals one built at pixelscale/s') if recip
+           else f'{n_div} division(s), none forms the reciprocal of the scale factor', f.loc())
     chk.ob('C17-b', 'D-factor', f.key, 'amplitude = rescale(amplitude, scale)/scale', okb_amp and n_amp > 0, '', f.loc())
     chk.ob('C17-b', 'D-factor', f.key, 'OPD = rescale(opd, scale) without extra factor', okb_opd and n_opd > 0, '', f.loc())
     chk.ob('C17-c', 'N-sibling', f.key, 'mask rescaled with order 0 in the monolithic and the segmented branch',
